@@ -182,8 +182,19 @@ def run_tlc(progs, cfg, cap, fuel, workers=WORKERS, timeout=1500, chunk=150, kee
     """Model-check MiniC.tla on the programs (chunk programs per TLC run). Returns Execs; row['p'] is the index
     into progs (0-based)."""
     res = Execs()
-    for k in range(0, len(progs), chunk):
-        part = progs[k:k + chunk]
+    # consecutive programs, at most 40000 AST nodes (and 3000 programs) per TLC run: JVM start and batch checking cost ~10 s
+    bounds = []
+    k = 0
+    while k < len(progs):
+        j, nodes = k, 0
+        while j < len(progs) and j - k < 3000 and nodes + len(progs[j]["nodes"]) <= 40000:
+            nodes += len(progs[j]["nodes"])
+            j += 1
+        j = max(j, k + 1)
+        bounds.append((k, j))
+        k = j
+    for k, kend in bounds:
+        part = progs[k:kend]
         work = vlib.mktmp("tlc")
         bpath = os.path.join(work, "batch.ndjson")
         vlib.write_ndjson(bpath, part)
@@ -212,7 +223,7 @@ def run_tlc(progs, cfg, cap, fuel, workers=WORKERS, timeout=1500, chunk=150, kee
         res.generated += r.generated
         res.wall += r.wall
         if keep:
-            with open(os.path.join(keep, "tlc%03d.out" % (k // chunk)), "w") as f:
+            with open(os.path.join(keep, "tlc%06d.out" % k), "w") as f:
                 f.write(r.out)
         shutil.rmtree(work, ignore_errors=True)
     return res
